@@ -42,6 +42,7 @@ type World struct {
 	Remotes    []string // names
 	RemotePaths map[string]string
 	IdEdits    int // identity versions committed by idedit actions
+	GCs        int // gc actions executed
 	Replicas   []*Replica
 	AuthorIds  []string
 	Seed       uint64
@@ -201,6 +202,9 @@ func (a Action) String() string {
 	if a.Kind == "idedit" {
 		return fmt.Sprintf("idedit(r%d,+%d)", a.R, a.N)
 	}
+	if a.Kind == "gc" {
+		return fmt.Sprintf("gc(r%d)", a.R)
+	}
 	return fmt.Sprintf("%s(r%d,%s)", a.Kind, a.R, RemoteNames[a.Rem%len(RemoteNames)])
 }
 
@@ -213,7 +217,7 @@ func GenActions(nReplicas, minLen, maxLen, nFiles int) *rapid.Generator[[]Action
 // GenActionsR is GenActions for a world with nRemotes remotes; it also draws edits of the replicas' own identities.
 func GenActionsR(nReplicas, nRemotes, minLen, maxLen, nFiles int) *rapid.Generator[[]Action] {
 	one := rapid.Custom(func(t *rapid.T) Action {
-		kind := rapid.SampledFrom([]string{"new", "edit", "edit", "edit", "edit", "edit", "edit", "push", "push", "push", "pull", "pull", "pull", "pull", "idedit"}).Draw(t, "kind")
+		kind := rapid.SampledFrom([]string{"new", "edit", "edit", "edit", "edit", "edit", "edit", "push", "push", "push", "pull", "pull", "pull", "pull", "idedit", "gc"}).Draw(t, "kind")
 		a := Action{Kind: kind, R: rapid.IntRange(0, nReplicas-1).Draw(t, "r")}
 		switch kind {
 		case "push", "pull":
@@ -344,6 +348,8 @@ func (w *World) Exec(a Action) error {
 		_, err = w.PullFrom(r, w.remoteName(a.Rem))
 	case "idedit":
 		err = w.editIdentity(r, a.N)
+	case "gc":
+		err = w.gc(r)
 	default:
 		panic("unknown action " + a.Kind)
 	}
@@ -473,6 +479,23 @@ func (w *World) editIdentity(r *Replica, n int) error {
 			return &ExecError{"identity-commit/" + Normalize(err.Error()), err.Error()}
 		}
 	}
+	return nil
+}
+
+// gc closes the replica's repository handle, lets stock git collect garbage (objects go into a pack, refs
+// into .git/packed-refs, unreachable objects are pruned) and opens the repository again - what happens
+// between two commands of a user whose git runs gc.
+func (w *World) gc(r *Replica) error {
+	_ = r.Repo.Close()
+	if res := RunGit(r.Path, "gc", "-q", "--prune=now"); res.Code != 0 {
+		return fmt.Errorf("harness: git gc: %s", res.Out)
+	}
+	repo, err := repository.OpenGoGitRepo(r.Path, "git-bug", nil)
+	if err != nil {
+		return &ExecError{"reopen-after-gc/" + Normalize(err.Error()), err.Error()}
+	}
+	r.Repo = repo
+	w.GCs++
 	return nil
 }
 
